@@ -28,6 +28,10 @@ def value_corpus(F, tier, name):
     recs += gen.g_trailing_zeros(F, rng, tier)
     recs += gen.g_sticky_positions(F, rng, tier)[:: 3 if q else 1]
     recs += gen.g_subnormal_neighbours(F, rng, tier)
+    recs += gen.g_pow10_thresholds(F, rng, tier)
+    recs += gen.g_lemire_refined(F, rng, tier)
+    recs += gen.g_wide_exact_products(F, rng, tier)
+    recs += gen.g_slow_grid(F, rng, tier)
     recs += gen.g_zero_limbs(F, rng, tier)
     recs += gen.g_sparse_bigmant(F, rng, 10 if q else 200) if F.name == "f64" else []
     recs += gen.g_budget_splits(F, rng, tier)[:: 3 if q else 1]
@@ -454,6 +458,23 @@ def c03(tier):
     for (m, qq) in gen.disguised_wrap(gen.F64, rng, 6 if tier == "quick" else 200):
         x = float("%de%d" % (m, qq))
         floats.append({"fmt": "f64", "bits": core.limbs(struct.unpack("<Q", struct.pack("<d", x))[0]), "only": "shortest"})
+    # floats whose SHORTEST rendering is a 15..17-digit decimal for which Eisel-Lemire's second multiplication runs and
+    # carries (gen.lemire_refined, per decimal exponent): the renderings closest to a rounding boundary of the product
+    nref = 0
+    for (w, qq, ev) in gen.lemire_refined(gen.F64, gen.rng_for("C03refine"), 3 if tier == "quick" else 12, 10000 if tier == "quick" else 60000):
+        if len(str(w)) > 17:
+            continue
+        try:
+            x = float("%de%d" % (w, qq))
+        except (OverflowError, ValueError):
+            continue
+        if x == 0.0 or x == float("inf"):
+            continue
+        digs = repr(x).split("e")[0].replace(".", "").strip("0")
+        if digs == str(w).strip("0"):
+            nref += 1
+            floats.append({"fmt": "f64", "bits": core.limbs(struct.unpack("<Q", struct.pack("<d", x))[0]), "only": "shortest"})
+    core.log("C03: %d floats whose shortest rendering needs the refined product" % nref)
     inp = os.path.join(wd, "floats.ndjson")
     core.write_ndjson(inp, floats)
     bindir = core.build_harness("std", bins=["gen_render"])
@@ -590,6 +611,7 @@ def c05(tier):
         inputs += gen.g_tie_digit_counts(F, rng, tier)
         inputs += gen.g_pow2_digits(F, rng, tier)
         inputs += gen.g_trailing_zeros(F, rng, tier)
+        inputs += gen.g_pow10_thresholds(F, rng, tier)
         inputs += gen.g_limb_crossers(F, rng, tier)[:: 3 if q else 1]
         inputs += gen.g_sparse_bigmant(F, rng, 6 if q else 100) if F.name == "f64" else []
         inputs += gen.g_zero_limbs(F, rng, tier)[:: 3 if q else 1]
